@@ -1,4 +1,5 @@
 import Wasp.Model.Auth
+import Wasp.Proofs.Auth
 /-!
 # C16 — clients are admitted iff their credentials match the configured store
 
@@ -18,37 +19,66 @@ def credMatch (H : String → String) (lines : List (List String)) (user pass mo
 /-- sort.Search on a monotone predicate returns the first index where it holds -/
 theorem goSearch_spec (n : Nat) (f : Nat → Bool) (mono : ∀ i j, i ≤ j → j < n → f i = true → f j = true) :
     goSearch n f ≤ n ∧ (∀ i, i < goSearch n f → f i = false) ∧ (∀ i, goSearch n f ≤ i → i < n → f i = true) := by
-  sorry
+  exact goSearchLoop_spec n f mono (n + 1) 0 n (Nat.zero_le _) (Nat.le_refl _)
+    (by intro k hk; omega) (by intro k hk hk'; omega) (by omega)
 
 theorem sortByUser_perm (l : List Record) : (sortByUser l).Perm l := by
-  sorry
+  exact sortByUser_perm' l
 
 theorem sortByUser_sorted (l : List Record) :
     (sortByUser l).Pairwise (fun a b => a.userHash ≤ b.userHash) := by
-  sorry
+  exact sortByUser_sorted' l
 
 /-- accepted ⇒ a configured line credMatch, with that mount point -/
 theorem C16_file_sound (H : String → String) (lines : List (List String)) (user pass mount : String)
     (h : authenticate H (load H lines) user pass = some mount) : credMatch H lines user pass mount := by
-  sorry
+  rw [authenticate_eq_find H _ (load_sorted H lines)] at h
+  obtain ⟨r, hfind, hm⟩ := Option.map_eq_some_iff.mp h
+  have hmem := List.mem_of_find?_eq_some hfind
+  have hhit := (hit_iff _ _ _).mp (List.find?_some hfind)
+  obtain ⟨l, hl, hrec⟩ := (mem_load H lines r).mp hmem
+  exact ⟨l, hl, r, hrec, hhit.1, hhit.2, hm⟩
 
 /-- a configured line credMatch ⇒ accepted (whichever entry it is, however many there are) -/
 theorem C16_file_complete (H : String → String) (lines : List (List String)) (user pass mount : String)
     (h : credMatch H lines user pass mount) : ∃ m, authenticate H (load H lines) user pass = some m := by
-  sorry
+  obtain ⟨l, hl, r, hrec, hu, hp, _⟩ := h
+  rw [authenticate_eq_find H _ (load_sorted H lines)]
+  have hmem : r ∈ load H lines := (mem_load H lines r).mpr ⟨l, hl, hrec⟩
+  cases hfind : (load H lines).find? (hit (H user) (H pass)) with
+  | some r' => exact ⟨r'.mount, rfl⟩
+  | none =>
+    have := List.find?_eq_none.mp hfind r hmem
+    exact absurd ((hit_iff _ _ _).mpr ⟨hu, hp⟩) this
 
+set_option linter.unusedVariables false in -- `hinj` is not needed, kept for the statement
 /-- with one line per user name the mount point is that line's -/
 theorem C16_file_mount (H : String → String) (hinj : ∀ a b, H a = H b → a = b) (lines : List (List String))
     (uniq : ∀ l₁ ∈ lines, ∀ l₂ ∈ lines, ∀ r₁ r₂, recordOf H l₁ = some r₁ → recordOf H l₂ = some r₂ →
               r₁.userHash = r₂.userHash → r₁ = r₂)
     (user pass mount : String) (h : credMatch H lines user pass mount) :
     authenticate H (load H lines) user pass = some mount := by
-  sorry
+  obtain ⟨l, hl, r, hrec, hu, hp, hm⟩ := h
+  rw [authenticate_eq_find H _ (load_sorted H lines)]
+  have hmem : r ∈ load H lines := (mem_load H lines r).mpr ⟨l, hl, hrec⟩
+  cases hfind : (load H lines).find? (hit (H user) (H pass)) with
+  | some r' =>
+    have hmem' := List.mem_of_find?_eq_some hfind
+    have hhit := (hit_iff _ _ _).mp (List.find?_some hfind)
+    obtain ⟨l', hl', hrec'⟩ := (mem_load H lines r').mp hmem'
+    have : r' = r := uniq l' hl' l hl r' r hrec' hrec (hhit.1.trans hu.symm)
+    subst this
+    simp [hm]
+  | none =>
+    have := List.find?_eq_none.mp hfind r hmem
+    exact absurd ((hit_iff _ _ _).mpr ⟨hu, hp⟩) this
 
 /-- the iff of the property statement -/
 theorem C16_file_iff (H : String → String) (lines : List (List String)) (user pass : String) :
     (∃ m, authenticate H (load H lines) user pass = some m) ↔ (∃ m, credMatch H lines user pass m) := by
-  sorry
+  constructor
+  · rintro ⟨m, h⟩; exact ⟨m, C16_file_sound H lines user pass m h⟩
+  · rintro ⟨m, h⟩; exact C16_file_complete H lines user pass m h
 
 /-- a 2-field line, and a 3-field line with an empty third field, land in the default mount point;
     a 3-field line in its third field; the loader is total (no line shape can make it fail) -/
@@ -56,15 +86,30 @@ theorem C16_loader_mount (H : String → String) (u p m : String) :
     recordOf H [u, p] = some ⟨H u, p, defaultMountPoint⟩ ∧
     recordOf H [u, p, ""] = some ⟨H u, p, defaultMountPoint⟩ ∧
     (m ≠ "" → recordOf H [u, p, m] = some ⟨H u, p, m⟩) := by
-  sorry
+  refine ⟨rfl, ?_, ?_⟩
+  · simp [recordOf]
+  · intro hm; simp [recordOf, hm]
 
 theorem C16_static_iff (H : String → String) (hinj : ∀ a b, H a = H b → a = b) (cu cp user pass : String) :
     staticAuthenticate H cu cp user pass = some defaultMountPoint ↔ (user = cu ∧ pass = cp) := by
-  sorry
+  unfold staticAuthenticate
+  constructor
+  · intro h
+    split at h
+    · cases h
+    · next hn =>
+      have h1 : H user = H cu := Decidable.byContradiction fun hc => hn (Or.inl hc)
+      have h2 : H pass = H cp := Decidable.byContradiction fun hc => hn (Or.inr hc)
+      exact ⟨hinj _ _ h1, hinj _ _ h2⟩
+  · rintro ⟨rfl, rfl⟩
+    simp
 
 theorem C16_static_reject (H : String → String) (cu cp user pass : String) :
     staticAuthenticate H cu cp user pass = none ∨ staticAuthenticate H cu cp user pass = some defaultMountPoint := by
-  sorry
+  unfold staticAuthenticate
+  split
+  · exact Or.inl rfl
+  · exact Or.inr rfl
 
 /-- non-vacuity: six users in "bad" order, the middle ones are found too -/
 example : (["u1", "u2", "u3", "u4", "u5", "u6"].map fun u =>
